@@ -213,6 +213,12 @@ static void flush_reports(void) {
 
 /* ---------------------------------------------------------------- materialise + call */
 static unsigned long pat(long i, int w) { (void)w; return 'a' + (i % 26); }
+/* the dirty fill of a destination: no terminator anywhere; for the wide-character functions a valid code point without case
+ * or decomposition (U+AAAA), so that the Unicode-aware ones run into the end of an unterminated operand instead of rejecting it */
+static void dirty_fill(unsigned char *p, size_t bytes, const Fn *f) {
+    memset(p, 0xAA, bytes);
+    if ((f->flags & F_WIDE) && f->w == 4) for (size_t i = 0; i + 4 <= bytes; i += 4) { p[i + 2] = 0; p[i + 3] = 0; }
+}
 
 static int dest_usable(const Fn *f, const Case *c) {
     return !c->d_null && c->dmax > 0 && c->d_huge < 2 && c->d_bos != 2 && c->dmax <= fn_limit(f);
@@ -231,10 +237,10 @@ static void materialise(Ctx *x) {
         if (c->place == 0) memset(x->dh - 128, 0xEE, 128); else memset(x->dh + x->dbytes, 0xEE, 128);
         long ne = x->dbytes / f->w;
         if (c->d_pk == 2) {
-            memset(x->dh, 0xAA, x->dbytes);
+            dirty_fill(x->dh, x->dbytes, f);
             for (long i = 0; i < c->dxn && i < ne; i++) eset(x->dh, f->w, i, c->dx[i]);
         } else {
-            memset(x->dh, 0xAA, x->dbytes);
+            dirty_fill(x->dh, x->dbytes, f);
             if (c->d_pk == 1) {
                 for (long i = 0; i < c->d_pl && i < ne; i++) eset(x->dh, f->w, i, 'p' + (i % 8));
                 if (c->d_pl < ne) eset(x->dh, f->w, c->d_pl, 0);
